@@ -15,7 +15,7 @@ Not decided: root/proof *values* (peak arithmetic).
 """
 import re
 
-from fvlib.core import (CFG, CallGraph, agg_blocks, call_blocks, calls, callee_matches, describe,
+from fvlib.core import (CFG, CallGraph, agg_blocks, call_blocks, calls, callee_matches, callee_name, describe,
                         guards, guard_region, assignments, root_of, op_place, short)
 from fvlib.effects import FieldEffects, first_field_of
 
@@ -110,6 +110,22 @@ def run(F, rep, tier, allfacts):
         if nd == len(reads):
             rep.ok("DOM-prove", "prove:reads-dominated(%d)" % len(reads))
         rep.sample({"prove_guard": "%s(%s,%s)" % (g["op"], g["a_desc"], g["b_desc"]), "error_region": sorted(err_region or [])})
+
+    # ---- side-node lookup priority: the scratch storage (joins recomputed for the *current* leaf count) shadows the
+    # persistent store, never the other way round: after reset / load at a smaller count the persistent store still
+    # holds nodes of the older, larger tree at positions that are scratch-only now.
+    rep.rule("ORDER-prove-lookup", "prove: scratch-storage lookup has priority; persistent storage is only the fallback")
+    sg = [i for i, c, args, *_ in calls(pf) if callee_matches(c, r"StorageInspectInfallible<.*>>?::get$") and not describe(pf, args[0], depth=6).startswith("arg:self")]
+    pg = [i for i, c, args, *_ in calls(pf) if callee_matches(c, r"^fuel_storage::StorageInspect::get$") and describe(pf, args[0], depth=6) == "arg:self.storage"]
+    comb = [(callee_name(c).rsplit("::", 1)[-1], [describe(pf, a, depth=14) for a in args]) for i, c, args, *_ in calls(pf) if callee_matches(c, r"Option::<T>::(or|or_else)$")]
+    okp = len(sg) == 1 and len(pg) == 1 and len(comb) == 1
+    if okp:
+        recv = comb[0][1][0]
+        okp = "arg:self.storage" not in recv and re.match(r"^call:get\(call:new\(\)", recv) is not None
+        if comb[0][0] == "or":
+            okp = okp and "call:get(arg:self.storage" in comb[0][1][1]
+    rep.check(okp, "ORDER-prove-lookup", "prove:scratch-first", "%s:%s" % (pf["file"], pf["line"]),
+              "the side node must be taken from the scratch storage when present and from self.storage only otherwise; combinators %s" % comb)
 
     # ---- push ordering
     un, uf = F.find(r"^" + re.escape(pfx) + r"push$", ["fuel_merkle"], one=True)
